@@ -152,7 +152,7 @@ func parseHead(br *bufio.Reader) (Head, error) {
 		if i < 0 {
 			return h, fmt.Errorf("malformed header line %q", l)
 		}
-		h.Header = append(h.Header, HeaderLine{l[:i], strings.TrimSpace(l[i+1:])})
+		h.Header = append(h.Header, HeaderLine{l[:i], strings.Trim(l[i+1:], " \t\r\n")})
 	}
 }
 
@@ -238,7 +238,7 @@ func (c *Conn) ReadResponse(method string) Response {
 				break
 			}
 			if i := strings.Index(l, ":"); i >= 0 {
-				r.Trailer = append(r.Trailer, HeaderLine{l[:i], strings.TrimSpace(l[i+1:])})
+				r.Trailer = append(r.Trailer, HeaderLine{l[:i], strings.Trim(l[i+1:], " \t\r\n")})
 			}
 		}
 	case r.Get("Content-Length") != "":
